@@ -24,7 +24,7 @@ RULE = (
 )
 ASSUMPTIONS = ["bounded to the listed positive-duration families", "completed/scheduled sets come from the reference model (current time under the installed filter)"]
 BOUNDS = {
-    "quick": "K3+ complete x 20 configurations (4 builders x 4 option pairs unfiltered + 4 builders x default options x dominated filter); K4+[seed%32::32] x 8 configurations (4 builders x default options x 2 filters); positive probes x 4 builders",
+    "quick": "K3+ complete, each instance under 8 of 20 configurations in rotation (4 builders x 4 option pairs unfiltered + 4 builders x default options x dominated filter); K4+[seed%32::32] x 8 configurations (4 builders x default options x 2 filters); positive probes with <= 6 operations x 4 builders",
     "thorough": "K3+, K4+ x 32 configurations; M3 small x 8; probes x 8",
 }
 
@@ -37,13 +37,17 @@ def cases(tier, seed):
     full = [(b, o, f) for b in _env.BUILDERS for o in OPTIONS for f in FILTERS]
     dflt = [(b, (True, True), f) for b in _env.BUILDERS for f in FILTERS]
     q20 = [(b, o, ()) for b in _env.BUILDERS for o in OPTIONS] + [(b, (True, True), FILTERS[1]) for b in _env.BUILDERS]
-    for s in F.K3_pos():
-        out.append(("residual", s, tuple(full if tier != "quick" else q20)))
+    for i, s in enumerate(F.K3_pos()):
+        if tier != "quick":
+            out.append(("residual", s, tuple(full)))
+        else:
+            # 8 of the 20 configurations per instance, rotating
+            out.append(("residual", s, tuple(q20[(i * 8 + k + seed) % 20] for k in range(8))))
     if tier == "quick":
         for s in F.sliced(F.K4_pos(), seed % 32, 32):
             out.append(("residual", s, tuple(dflt)))
         for s in F.P_ALL:
-            if not F.has_zero(s):
+            if not F.has_zero(s) and F.n_ops(s) <= 6:
                 out.append(("residual", s, tuple((b, (True, True), ()) for b in _env.BUILDERS)))
     else:
         for s in F.K4_pos():
